@@ -21,8 +21,19 @@ def smul (k : α) (a : V3 α) : V3 α := ⟨k * a.x, k * a.y, k * a.z⟩
 def neg (a : V3 α) : V3 α := ⟨-a.x, -a.y, -a.z⟩
 def zero : V3 α := ⟨0, 0, 0⟩
 
+/-! the same vocabulary for `V2` and `V4` (ImathVecAlgo.h is generic in the vector type) -/
 def dot2 (a b : V2 α) : α := a.x * b.x + a.y * b.y
+def add2 (a b : V2 α) : V2 α := ⟨a.x + b.x, a.y + b.y⟩
+def sub2 (a b : V2 α) : V2 α := ⟨a.x - b.x, a.y - b.y⟩
+def smul2 (k : α) (a : V2 α) : V2 α := ⟨k * a.x, k * a.y⟩
+def zero2 : V2 α := ⟨0, 0⟩
+def dist2v2 (a b : V2 α) : α := dot2 (sub2 a b) (sub2 a b)
 def dot4 (a b : V4 α) : α := a.x * b.x + a.y * b.y + a.z * b.z + a.w * b.w
+def add4 (a b : V4 α) : V4 α := ⟨a.x + b.x, a.y + b.y, a.z + b.z, a.w + b.w⟩
+def sub4 (a b : V4 α) : V4 α := ⟨a.x - b.x, a.y - b.y, a.z - b.z, a.w - b.w⟩
+def smul4 (k : α) (a : V4 α) : V4 α := ⟨k * a.x, k * a.y, k * a.z, k * a.w⟩
+def zero4 : V4 α := ⟨0, 0, 0, 0⟩
+def dist2v4 (a b : V4 α) : α := dot4 (sub4 a b) (sub4 a b)
 
 /-- squared Euclidean distance of two points -/
 def dist2 (a b : V3 α) : α := dot (sub a b) (sub a b)
